@@ -8,7 +8,7 @@
    Trusted inverse pairs: msgpack on the document tree, numpy tobytes('C')/frombuffer,
    zlib, pickle, SQLite row order. *)
 From Coq Require Import ZArith List Bool.
-From FV Require Import Model.C16_Model Proofs.C16_Proofs.
+From FV Require Import Common.SerTags Model.C16_Model Proofs.C16_Proofs.
 Import ListNotations.
 Local Open Scope Z_scope.
 
@@ -77,6 +77,20 @@ Theorem C16_tables_consistent :
   serialize_strict_types = true.
 Proof. exact tables_consistent. Qed.
 
+(* the round trip applied twice: the decoded value is supported again, is its own canonical form and
+   round-trips to itself (re-serialising what was loaded loses nothing) *)
+Theorem C16_roundtrip_idempotent : forall v, wf v = true -> supported v = true ->
+  roundtrip (canon v) = Some (canon v) /\ canon (canon v) = canon v /\ supported (canon v) = true.
+Proof. exact roundtrip_idempotent. Qed.
+
+(* the SQLite schema as translated: the INSERT tuple order is the CREATE TABLE column order, the
+   three listings select the columns they yield, rowid order, a fresh cursor per query *)
+Theorem C16_sqlite_schema_consistent :
+  builder_tuple = table_columns /\ table_columns = [ColId; ColData; ColCount] /\
+  select_ids_cols = [ColId] /\ select_sizes_cols = [ColId; ColCount] /\ select_clients_cols = [ColId; ColData] /\
+  sqlite_row_is_id_blob_count = true /\ sqlite_reads_in_rowid_order = true /\ sqlite_fresh_cursor_per_query = true.
+Proof. exact sqlite_schema_consistent. Qed.
+
 (* non-vacuity: a byte-swapped, reversed int16 view inside a dict, next to a bytes
    array, a numpy scalar and a big python int *)
 Example C16_example :
@@ -101,3 +115,5 @@ Print Assumptions C16_dispatch_total.
 Print Assumptions C16_sqlite_roundtrip.
 Print Assumptions C16_checkpoint_last_save_wins.
 Print Assumptions C16_tables_consistent.
+Print Assumptions C16_roundtrip_idempotent.
+Print Assumptions C16_sqlite_schema_consistent.
